@@ -137,6 +137,10 @@ def fcbo(model, R, key, S_):
                 return ('EmptyOther', False)
             if isinstance(n, ast.Name) and n.id == curS:
                 return ('EmptyEnumerated', False)
+            if (isinstance(n, ast.Compare) and len(n.ops) == 1 and isinstance(n.ops[0], (ast.Eq, ast.NotEq))
+                    and any(name_is(a_, curS) and src(X(b_)) == f'{ctx}.{CLS[S_]}.supremum' for a_, b_ in ((n.left, n.comparators[0]), (n.comparators[0], n.left)))):
+                # the enumerated set already holds every position: each candidate is skipped by the "already in" test
+                return ('NothingToAdd', isinstance(n.ops[0], ast.Eq))
             if isinstance(n, ast.Compare) and len(n.ops) == 1 and isinstance(n.ops[0], (ast.Eq, ast.NotEq, ast.GtE, ast.Lt)):
                 l, r = src(X(n.left)), src(X(n.comparators[0]))
                 if {l, r} == {kvar} | cnt_names or ({l, r} - {kvar}) <= cnt_names and kvar in (l, r):
@@ -174,7 +178,7 @@ def fcbo(model, R, key, S_):
             import itertools
             for bits in itertools.product((False, True), repeat=len(fm.atoms)):
                 e = dict(zip(fm.atoms, bits))
-                if fm(e) and not (e.get('NoPositionLeft') or e.get('EmptyOther')):
+                if fm(e) and not (e.get('NoPositionLeft') or e.get('EmptyOther') or e.get('NothingToAdd')):
                     bad_env = e
             R.check(bad_env is None, rule, func, c.test, f'{tag}: early exit only when nothing can be added',
                     f'{kvar} == n or not {curT}', src(c.test), extra={'exits_although': bad_env}, strict=True if bad_env and bad_env.get('PositionsLeft') else None)
